@@ -241,3 +241,4 @@ TRUSTED = ["Gram layer: kernels are inner products of feature vectors (uninterpr
            "sklearn KernelCenterer.fit (unweighted branch): K_fit_rows_ = uniform column means, K_fit_all_ = their mean; _validate_data returns the input (a copy when copy=True); _check_sample_weight returns the weights",
            "np.trace / np.linalg.pinv / @ are recorded symbolically: the contract pins WHICH matrices enter; 'the transformed training kernel has trace n' then follows by linearity of the trace (not machine-checked here); kernels with non-positive centred trace are outside the property",
            "fit_transform = fit followed by transform: only checked at run time (bounded)"]
+LEAN_LEMMAS = "lemmas/lean/Lemmas.lean"
